@@ -33,6 +33,11 @@ def main():
         mod.run(out)
     except Exception:
         out.fatal = "machinery exception: " + traceback.format_exc()[-3000:]
+    for o in out.obligations:
+        if o.status == "pass" and not o.witness:
+            # a verdict without its reachability witness proves nothing: never reported as held
+            o.status = "inconclusive"
+            o.detail = "vacuous: the obligation passed but its reachability witness was not satisfied"
     path = core.write_evidence(out)
     for l in out.lines:
         print(l)
